@@ -122,6 +122,8 @@ package stack
 //@   ensures [consumedLineFollowsTheTransitionTable C01 C07 C08] result0 ==> (old(s.state) == looking ==> s.state == gotRoutineHeader || s.state == gotRaceHeader1) && (old(s.state) == betweenRoutine ==> s.state == gotRoutineHeader) && (old(s.state) == gotRoutineHeader ==> s.state == gotUnavail || s.state == gotFunc) && (old(s.state) == gotFunc ==> s.state == gotFileFunc) && (old(s.state) == gotCreated ==> s.state == gotFileCreated) && (old(s.state) == gotFileFunc ==> s.state == gotCreated || s.state == gotFileFunc || s.state == gotFunc || s.state == betweenRoutine) && (old(s.state) == gotFileCreated ==> s.state == betweenRoutine) && (old(s.state) == gotUnavail ==> s.state == betweenRoutine || s.state == gotCreated) && (old(s.state) == gotRaceHeader1 ==> s.state == gotRaceHeader2) && (old(s.state) == gotRaceHeader2 ==> s.state == gotRaceOperationHeader) && (old(s.state) == gotRaceOperationHeader ==> s.state == gotRaceOperationFunc) && (old(s.state) == gotRaceOperationFunc ==> s.state == gotRaceOperationFile) && (old(s.state) == gotRaceOperationFile ==> s.state == betweenRaceOperations || s.state == gotRaceOperationFunc) && (old(s.state) == betweenRaceOperations ==> s.state == gotRaceOperationHeader || s.state == gotRaceGoroutineHeader) && (old(s.state) == betweenRaceGoroutines ==> s.state == gotRaceGoroutineHeader) && (old(s.state) == gotRaceGoroutineHeader ==> s.state == gotRaceGoroutineFunc) && (old(s.state) == gotRaceGoroutineFunc ==> s.state == gotRaceGoroutineFile) && (old(s.state) == gotRaceGoroutineFile ==> s.state == betweenRaceGoroutines || s.state == done || s.state == gotRaceGoroutineFunc)
 //@   ensures [raceErrorChangesNoState C08] (old(s.state) == betweenRaceOperations || old(s.state) == betweenRaceGoroutines) && result1 != nil && s.state != done ==> s.state == old(s.state) && s.goroutineIndex == old(s.goroutineIndex) && len(s.Goroutines) == old(len(s.Goroutines)) && forall j :: 0 <= j && j < len(s.Goroutines) ==> s.Goroutines[j].State == old(s.Goroutines[j].State)
 //@   assert after-call FindSubmatch#1: [lineTerminatorRemoved C01] arr(arg1) == arr(line) && ((len(line) >= 2 && line[len(line)-2] == 13 && line[len(line)-1] == 10) ? off(arg1) + len(arg1) == off(line) + len(line) - 2 : ((len(line) >= 1 && line[len(line)-1] == 10) ? off(arg1) + len(arg1) == off(line) + len(line) - 1 : off(arg1) + len(arg1) == off(line) + len(line)))
+//@   assert after-call bytes.Split#1: [stateItemsAreTheBracketText C01] sameslice(arg0, match[3]) && sameslice(arg1, commaSpace)
+//@   assert after-store Snapshot.Goroutines#2: [lockedFlagFromTheItems C01] s.Goroutines[len(s.Goroutines)-1].Locked <==> (exists j :: 1 <= j && j < len(items) && SameBytes(items[j], lockedToThread))
 //@   assert after-store Snapshot.Goroutines#2: [headerFields C01] len(s.Goroutines) >= 1 && s.Goroutines[len(s.Goroutines)-1].ID == decval(match[2], len(match[2])) && s.Goroutines[len(s.Goroutines)-1].SleepMin == sleep && s.Goroutines[len(s.Goroutines)-1].SleepMax == sleep && (s.Goroutines[len(s.Goroutines)-1].Locked <==> locked) && (s.Goroutines[len(s.Goroutines)-1].First <==> len(s.Goroutines) == 1) && s.Goroutines[len(s.Goroutines)-1].RaceAddr == 0 && len(s.Goroutines[len(s.Goroutines)-1].Stack.Calls) == 0 && len(s.Goroutines[len(s.Goroutines)-1].State) == len(items[0]) && (forall k :: 0 <= k && k < len(items[0]) ==> s.Goroutines[len(s.Goroutines)-1].State[k] == items[0][k])
 //@   gvar addrTok string
 //@   update after-call strconv.ParseUint#1: addrTok := arg0
@@ -134,6 +136,7 @@ package stack
 //@   assert after-store Snapshot.Goroutines#4: [racePreviousOperation C08] len(s.Goroutines) == old(len(s.Goroutines)) + 1 && s.Goroutines[len(s.Goroutines)-1].ID == decval(match[3], len(match[3])) && !s.Goroutines[len(s.Goroutines)-1].First && (s.Goroutines[len(s.Goroutines)-1].RaceWrite <==> w) && s.Goroutines[len(s.Goroutines)-1].RaceAddr == addr
 //@   assert after-store scanningState.goroutineIndex#3: [createdAtSelectsFirstGoroutineWithThatID C08] 0 <= s.goroutineIndex && s.goroutineIndex < len(s.Goroutines) && s.Goroutines[s.goroutineIndex].ID == id && (forall j :: 0 <= j && j < s.goroutineIndex ==> s.Goroutines[j].ID != id) && len(s.Goroutines[s.goroutineIndex].State) == len(match[2])
 //@   loop 0: invariant 1 <= i
+//@   loop 0: invariant [lockedIffSomeItemSaysSo C01] locked <==> (exists j :: 1 <= j && j < i && j < len(items) && SameBytes(items[j], lockedToThread))
 //@   loop 0: decreases len(items) - i
 //@   loop 1: invariant Inv(s) && s.Snapshot == old(s.Snapshot) && !found && (s.state == betweenRaceOperations || s.state == betweenRaceGoroutines) && s.state == old(s.state) && s.Goroutines == old(s.Goroutines)
 //@   loop 1: invariant -1 <= rangeindex && rangeindex < len(s.Goroutines)
@@ -141,6 +144,7 @@ package stack
 //@   loop 1: invariant [searchChangesNoState C08] forall j :: 0 <= j && j < len(s.Goroutines) ==> s.Goroutines[j].State == old(s.Goroutines[j].State)
 //@   loop 1: decreases len(s.Goroutines) - rangeindex
 
+//@ pred SameBytes(a []byte, b []byte) = len(a) == len(b) && forall k :: 0 <= k && k < len(a) ==> a[k] == b[k]
 //@ pred isSp(c int) = c == 9 || c == 32
 
 //@ func parseFunc
